@@ -658,10 +658,18 @@ def SegmentAligned (d : Defs) (path : Path) : Prop := matchRoute .cur d path = m
 instance (d : Defs) (path : Path) : Decidable (SegmentAligned d path) := by
   unfold SegmentAligned; exact inferInstance
 
+/-- an atom that has to be there: anything but an optional param and the empty static -/
+def FSeg.mandatory : FSeg → Bool
+  | .opt _ => false
+  | .st s => !s.isEmpty
+  | _ => true
+
 mutual
-/-- a route with children whose own segments contain an optional param -/
+/-- a route with children whose own segments contain an optional param *and* something mandatory
+(a parent that consists of optional params only is what the optional-parent fallback is made for) -/
 def Route.hasOptParent : Route → Bool
-  | .mk segs children => (!children.isEmpty && segs.optional) || anyOptParent children
+  | .mk segs children =>
+    (!children.isEmpty && segs.optional && segs.gen.any FSeg.mandatory) || anyOptParent children
 def anyOptParent : List Route → Bool
   | [] => false
   | c :: cs => c.hasOptParent || anyOptParent cs
@@ -703,6 +711,19 @@ def anyMultiOpt : List Route → Bool
   | c :: cs => c.hasMultiOpt || anyMultiOpt cs
 end
 
+def notSlash : FSeg → Bool
+  | .st s => decide (s ≠ ['/'])
+  | _ => true
+
+mutual
+/-- no route has a `"/"` static segment -/
+def Route.noSlashSeg : Route → Bool
+  | .mk segs children => segs.gen.all notSlash && noSlashSegList children
+def noSlashSegList : List Route → Bool
+  | [] => true
+  | c :: cs => c.noSlashSeg && noSlashSegList cs
+end
+
 /-- a static `"/"` segment followed by another segment in some registered route -/
 def slashThenMore : List FSeg → Bool
   | [] => false
@@ -728,7 +749,7 @@ inductive Class where
 first that applies.  Every class is a decidable predicate of the input `(d, path)`. -/
 def classify (d : Defs) (path : Path) (kind : Kind) : Class :=
   let aligned := decide (SegmentAligned d path)
-  let unaligned : Class := if hasSlashSeg d then .slashParent else .unclassified kind
+  let unaligned : Class := if !noSlashSegList d.tops then .slashParent else .unclassified kind
   match kind with
   | .panic => .unclassified kind
   | .routerOnly =>
